@@ -181,8 +181,8 @@ class DLTypeDimensionExpression:
             is_anonymous=is_anonymous,
         )
 
-    def evaluate(self, scope: dict[str, int]) -> int:
-        """Evaluate the expression."""
+    def evaluate(self, scope: dict[str, int], *, use_cached: bool = True) -> int:
+        """Evaluate the expression, use_cached=False ignores a value already in scope for our identifier."""
         _logger.debug("Evaluating expression %s with scope %s", self, scope)
         stack: list[int] = []
 
@@ -190,7 +190,7 @@ class DLTypeDimensionExpression:
             msg = "Cannot evaluate an anonymous axis"
             raise ValueError(msg)
 
-        if self.identifier in scope:
+        if use_cached and self.identifier in scope:
             # if the identifier is in the scope, we return the value directly
             # however if we're an anonymous axis, we don't want to
             # return the value directly as the prior scoped value is irrelevant
